@@ -94,6 +94,11 @@ CHECKS={
    text='Exhaustive path enumeration: every path string of <=3 components over an 18-symbol component alphabet (plain file, directory, .., ., .ergo, .ergo2, ..x, empty, unicode, symlinks to a file / a directory / outside the project / nowhere / /dev/null / the log itself, missing, plans.jsonl, empty dir), each with and without leading and trailing slash, against a fixed project tree; plus targets {task in 3 states, epic, pruned, unknown}, 9 summaries and 3 input modes on 8 paths. Oracle: accepted => target is a live task, the cleaned path is relative, does not start with a .. component, is not .ergo or below, names an existing regular file, the recorded path is the cleaned one, sha256 is the hash of the content at that moment, file_url parses to file:// + the absolute path, the summary is the trimmed single-line input; rejected => nothing written. Then explicit-state search over every history of depth <=4 (5) of later commands (more results, state/title/epic/claim changes, results elsewhere, claim, prune, compact): the results list must equal the model list, newest first, with unaltered evidence, in every state.',
    note='Lexical confinement judged on filepath.Clean(input); existence/regularity follows symlinks. Over-rejection is not a violation (accepted cases are counted). FIFOs are not in the tree (reading one blocks).',
    technique='exhaustive small-scope input enumeration + explicit-state BFS over real commands + reference model'),
+
+ 'C19': dict(engine='SEQ', level='model_checking', design='3/C19',
+   text='A (structure): every store of the C08 scope with <=2 tasks (quick: + every 7th restricted 3-task store; thorough: all) x 7 list views (default, --all, --ready, --epics, -q, --epic E, --epic E --ready): rows (lines ending in an id), tree glyphs, parent epic, summary buckets over the view\'s scope and empty-state sentences are compared with `list --json` of the same store. B (layout): 6 text classes (ASCII, CJK wide, combining, astral, mixed, accented) x title widths {1,20,21,70,130 (+12,40)} x stdout in {pipe, pty of 20,21,40,60,79,80,81,120,200 columns} x 4 views on a store with blockers, claimants, children, results and epic dependencies: every row valid UTF-8, no wider than the terminal, id in one common column (plus the structure oracle again).',
+   note='Independent display-width function valid for the chosen alphabet (no ambiguous-width characters in titles); widths < 20 not explored ("narrow" is not defined by the property). A layout violation must reproduce 5x before it is reported.',
+   technique='exhaustive small-scope enumeration (states x flags x widths x text classes) over real commands on a pty'),
 }
 NA_REASON='check not built yet (work in progress; design in DESIGN.md)'
 m={"version":1,
